@@ -88,6 +88,108 @@ def one(own_r, own_a, sizes, rng):
     return term, human
 
 
+def recv_case(own, peer_ann, ident_len):
+    """The library as requestor (configured maximum `own`, which it announces) against a raw-socket acceptor that
+    announces the smaller `peer_ann` and then - as it may: the two directions are independent - answers a C-FIND
+    with one P-DATA-TF sized by the REQUESTOR's announcement.  The match must reach the caller."""
+    import socket
+    import struct
+    import threading
+    from pynetdicom2 import applicationentity as aemod, sopclass, pdu, userdataitems, dimsemessages as dm, dsutils
+    from pydicom.dataset import Dataset
+    FIND = sopclass.PATIENT_ROOT_FIND_SOP_CLASS
+    ident = Dataset()
+    ident.PatientID = 'X' * ident_len
+    srv = socket.socket()
+    srv.bind(('127.0.0.1', 0))
+    srv.listen(1)
+    port = srv.getsockname()[1]
+    sent_len = [0]
+
+    def read_pdu(conn):
+        head = b''
+        while len(head) < 6:
+            chunk = conn.recv(6 - len(head))
+            if not chunk:
+                return None
+            head += chunk
+        n = struct.unpack('>I', head[2:6])[0]
+        body = b''
+        while len(body) < n:
+            chunk = conn.recv(n - len(body))
+            if not chunk:
+                return None
+            body += chunk
+        return head + body
+
+    def peer():
+        conn, _a = srv.accept()
+        conn.settimeout(10)
+        try:
+            rq = pdu.AAssociateRqPDU.decode(read_pdu(conn))
+            items = [rq.variable_items[0]]
+            for it in rq.variable_items[1:-1]:
+                items.append(pdu.PresentationContextItemAC(it.context_id, 0, pdu.TransferSyntaxSubItem('1.2.840.10008.1.2')))
+            items.append(pdu.UserInformationItem([userdataitems.MaximumLengthSubItem(peer_ann)]))
+            conn.sendall(pdu.AAssociateAcPDU(rq.called_ae_title, rq.calling_ae_title, items).encode())
+            pc = rq.variable_items[1].context_id
+            got = b''
+            while True:                                  # the C-FIND request (command + identifier)
+                raw = read_pdu(conn)
+                if raw is None:
+                    return
+                p = pdu.PDataTfPDU.decode(raw)
+                if any(v.data_value[0] == 2 for v in p.data_value_items):
+                    break
+            rsp = dm.CFindRSPMessage()
+            rsp.message_id_being_responded_to = 1
+            rsp.sop_class_uid = FIND
+            rsp.status = 0xFF00
+            rsp.data_set = dsutils.encode(ident, True, True)
+            rsp.set_length()
+            for p in rsp.encode(pc, own):                # sized by what the requestor announced
+                raw = p.encode()
+                sent_len[0] = max(sent_len[0], len(raw) - 6)
+                conn.sendall(raw)
+            fin = dm.CFindRSPMessage()
+            fin.message_id_being_responded_to = 1
+            fin.sop_class_uid = FIND
+            fin.status = 0
+            fin.set_length()
+            for p in fin.encode(pc, own):
+                conn.sendall(p.encode())
+            while read_pdu(conn) is not None:            # release / abort / close
+                rel = pdu.AReleaseRpPDU().encode()
+                try:
+                    conn.sendall(rel)
+                except Exception:  # noqa
+                    pass
+        except Exception:  # noqa
+            pass
+        finally:
+            conn.close()
+    t = threading.Thread(target=peer)
+    t.daemon = True
+    t.start()
+    delivered = False
+    err = None
+    try:
+        cli = aemod.ClientAE('CLIENT', max_pdu_length=own).add_scu(sopclass.qr_find_scu)
+        cli.timeout = 5
+        with cli.request_association(dict(address='127.0.0.1', port=port, aet='PEER')) as assoc:
+            q = Dataset()
+            q.PatientID = ''
+            for d, st in assoc.get_scu(FIND)(q, 1):
+                if d is not None and str(d.PatientID) == 'X' * ident_len:
+                    delivered = True
+    except Exception as e:  # noqa
+        err = repr(e)
+    t.join(5)
+    srv.close()
+    return ('(%d, %d, %d, %s)' % (own, peer_ann, sent_len[0], cbool(delivered)),
+            dict(own=own, peer_announced=peer_ann, incoming_pdu_length=sent_len[0], delivered=delivered, error=err))
+
+
 def main(tier, seed):
     dec = common.Decision('C10', tier, seed)
     common.static_gate(dec, ['Properties/C10.v'], ['Proofs/NegotiationProofs.v', 'Proofs/DimseProofs.v'])
@@ -107,13 +209,25 @@ def main(tier, seed):
     run = common.CoqRun('C10')
     failing, broken, n_obl, n_ok = common.run_sharded(run, 'Max', nd.IMPORTS, 'mcase', [t for t, _h in obs],
                                                       [('corr', 'max_corr'), ('spec', 'max_spec')], size=25)
+    recv = [recv_case(own, ann, n) for own, ann, n in
+            ([(16384, 4096, 8000), (0, 4096, 30000), (65536, 128, 2000)] if tier == 'quick' else
+             [(16384, 4096, 8000), (0, 4096, 30000), (65536, 128, 2000), (8192, 7, 5000), (4096, 4096, 3000),
+              (131072, 1024, 100000)])]
+    f3, b3, n3, k3 = common.run_sharded(run, 'Recv', nd.IMPORTS, 'rvcase', [t for t, _h in recv],
+                                        [('recv', 'recv_spec')], size=10)
+    broken += b3
+    n_obl += n3
+    n_ok += k3
     dec.obligations(n_obl, n_ok)
+    for i in f3['recv']:
+        dec.report(dict(recv[i][1], kind='announced-maximum-not-received'))
     cov = dec.coverage
     cov['evaluations'] = len(obs)
     cov['distinct_nontrivial'] = len(set((h['own_r'], h['own_a']) for _t, h in obs))
     cov['rule'] = ('all pairs over {0, 7, 8, 127, 128, 1024, 16384, 65536, 2^31, 2^32-1}^2 through the real requester and '
                    'acceptor (PDUs passed through encode/decode) x both sides sending messages smaller than, equal to and '
-                   'several times the fragment size; distinct = pairs of configured maxima')
+                   'several times the fragment size; the library as requestor against a raw acceptor that announces less than the '
+                   'requestor and sends it P-DATA-TF PDUs sized by the requestor\'s announcement; distinct = pairs of configured maxima')
     cov['exhaustive'] = False
     cov['distribution'] = dict(pairs_with_zero=sum(1 for _t, h in obs if 0 in (h['own_r'], h['own_a'])),
                                errors=sum(1 for _t, h in obs if h['error']))
